@@ -2,6 +2,7 @@
 evaluation, RF2 return/identifier discipline, RF9 load/init on reset."""
 from canalyze.ir import walk, strip, const_eval, show, callee_name
 from canalyze.peval import PEval
+from canalyze import flow
 from canalyze.front import AnalysisBroken
 from tables import spec
 
@@ -472,3 +473,56 @@ def run(ctx):
     config_services(ctx, rows, mode_val)
     load_on_reset(ctx)
     loaded_rate_used(ctx)
+
+
+def init_covers_state(ctx):
+    """COLssInit is what reset communication uses to return the LSS slave to the state of a fresh node.  Every field of the
+    LSS record that some handler CONSULTS in a condition (the mode, the progress of the selective / identify sequences, the
+    stored flag, the pending bit rate) is stored by COLssInit on every path past its argument checks - a state field the
+    initialiser forgets keeps a half-finished sequence alive across the reset."""
+    m = ctx.m
+    f = 'COLssInit'
+    m.need(f)
+    props = ['C18', 'C20']
+    consulted = {}
+    for fn_name, fn in m.funcs.items():
+        if not fn.unit.endswith('co_lss.c'):
+            continue
+        g2 = m.cfg(fn_name)
+        for nd in g2.nodes:
+            if nd.kind in ('br', 'sw') and nd.x is not None:
+                for n in walk(nd.x):
+                    if n.k == 'mem' and n.field and n.field[0] == 'CO_LSS':
+                        consulted.setdefault(n.field, fn_name)
+    ctx.require_min(props, 'RF9-lss-init', len(consulted), 3, 'LSS state fields consulted by the handlers')
+    g = m.cfg(f)
+    first = None
+    for nd in g.nodes:
+        if nd.x is not None and nd.kind == 'stmt' and any(l.k == 'mem' and l.field and l.field[0] == 'CO_LSS'
+                                                         for (p_, rhs_, n_) in flow.assigned_paths(nd.x) for l in [strip(n_.kids[0])] if n_.k != 'var'):
+            if first is None or nd.line < first.line:
+                first = nd
+    if first is None:
+        ctx.broke(props, 'RF9-lss-init: COLssInit stores no field of the LSS record')
+        return
+    for fld, reader in sorted(consulted.items()):
+        stores = set(nd.id for nd in g.nodes if nd.x is not None and m.field_stores(nd.x, fld))
+        site = 'COLssInit resets CO_LSS.%s (consulted by %s)' % (fld[1], reader)
+        r = flow.reach_from(g, first.id, avoid=stores, include_start=(first.id not in stores))
+        if first.id not in stores and g.exit.id in r or (not stores):
+            ctx.ob(props, 'RF9-lss-init', f, site, None)
+            ctx.find(props, 'RF9-lss-init', f, 'not-reset:%s' % fld[1], m.loc(f, m.funcs[f].line),
+                     'COLssInit does not store CO_LSS.%s on every path, but %s branches on it: after a reset communication the LSS slave '
+                     'continues with the value the previous session left (a half-finished selective switch / identify sequence '
+                     'completes with a single request)' % (fld[1], reader))
+        else:
+            ctx.ob(props, 'RF9-lss-init', f, site, 'stored on every path past the argument checks')
+
+
+_run_lss = run
+
+
+def run(ctx):
+    r = _run_lss(ctx)
+    init_covers_state(ctx)
+    return r
